@@ -162,7 +162,7 @@ let run_sync (toks : string array) =
     let rs = ref (fresh (nat_of_int nrep)) in
     List.iteri (fun i e ->
       if i > 0 then add ";";
-      (match ev_run String.equal (page_hash ki) lvl_of vh merge !rs [e] with Ok r -> rs := r | _ -> raise Exit);
+      (match ev_run (page_hash ki) lvl_of String.equal vh merge !rs [e] with Ok r -> rs := r | _ -> raise Exit);
       List.iteri (fun j rp ->
         if j > 0 then add "/";
         add "S="; add (String.concat "," (List.map (fun (k, v) -> Printf.sprintf "%d=%d" (int_of_n k) v) rp.r_store));
